@@ -113,9 +113,23 @@ pub fn run(args: &[String]) -> i32 {
     let runs = arg_u64(args, "--runs", 20) as usize;
     let mut o = Out::create(arg(args, "--out").expect("--out"));
     let mut rng = StdRng::seed_from_u64(seed ^ 0x7e5);
+    let mut stuck_runs = 0;
     for _ in 0..runs {
         match one_run(&mut rng) {
-            Ok(ev) => o.line(&ev),
+            Ok(ev) => {
+                // a run in which a thread did not react in time costs tens of seconds; three of them are
+                // evidence enough, the remaining runs are not started
+                let stuck = ev["ctl"].as_array().unwrap().iter().any(|e| {
+                    e["timeout"] == true || ["PauseNotObserved", "SnapshotNotAnswered", "FaultNotObserved", "NoProgressAfterFault"].contains(&e["a"].as_str().unwrap_or(""))
+                });
+                o.line(&ev);
+                if stuck {
+                    stuck_runs += 1;
+                    if stuck_runs >= 3 {
+                        break;
+                    }
+                }
+            }
             Err(e) => {
                 eprintln!("resource-run: {e}");
                 return 2;
